@@ -179,25 +179,34 @@ def _triple(draw):
 @st.composite
 def _derived(draw):
     k = draw(st.integers(1, 3))
-    kind = draw(st.sampled_from(['array', 'sample', 'sample']))
+    kind = draw(st.sampled_from(['array', 'sample', 'sample', 'mixed']))
+    # how the channel is given: one position for all sets, one name for all sets (samples only; the named
+    # channel sits in a different column of each sample), or no channel (every set is one-dimensional)
+    chmode = draw(st.sampled_from(['pos', 'pos', 'flat'] if kind != 'sample' else ['pos', 'name', 'name', 'flat']))
+    if kind == 'mixed':
+        k = max(k, 2)
     sets = []
-    for _ in range(k):
-        if kind == 'array':
+    for i in range(k):
+        skind = kind if kind != 'mixed' else ('sample' if i == 0 else ('array' if i == 1 else draw(st.sampled_from(['array', 'sample']))))
+        if skind == 'array':
             n = draw(st.integers(1, 30))
             vals = draw(st.lists(st.one_of(st.floats(1e-3, 1e6), st.floats(-1e4, -1e-3),
                                            st.integers(0, 70000).map(float)),
                                  min_size=n, max_size=n))
             vals[draw(st.integers(0, n - 1))] = draw(st.floats(1.5, 1e7))     # at least one positive
-            sets.append(dict(values=vals, two_d=draw(st.booleans())))
+            sets.append(dict(kind='array', values=vals, width=draw(st.integers(1, 3))))
         else:
             spec = draw(sample_spec(min_d=1, max_d=3, min_n=1, max_n=25, datatypes=('I', 'F'), log_amp=False))
             spec['negatives'] = draw(st.booleans())
-            sets.append(dict(spec=spec, to_rfi=draw(st.sampled_from([False, True, 'log']))))
+            sets.append(dict(kind='sample', spec=spec, to_rfi=draw(st.sampled_from([False, True, 'log'])),
+                             col=draw(st.integers(0, len(spec['widths']) - 1))))
+    if kind == 'mixed' and draw(st.booleans()):
+        sets.reverse()
     over = {}
     for kname, strat in (('T', st.floats(1, 1e8)), ('M', st.floats(0.5, 12)), ('W', st.floats(0, 3))):
         if draw(st.integers(0, 4)) == 0:
             over[kname] = draw(strat)
-    return dict(arm='derived', kind=kind, sets=sets, as_list=(k > 1) or draw(st.booleans()), over=over)
+    return dict(arm='derived', kind=kind, chmode=chmode, sets=sets, as_list=(k > 1) or draw(st.booleans()), over=over)
 
 
 @st.composite
@@ -235,40 +244,45 @@ def check(case, obs):
         data = []
         exp_T = 0.0
         mins = []
+        chmode = case['chmode']
+        common = 0
+        if chmode == 'pos':
+            # one position for every set: it must exist in each of them
+            common = min([len(s_['spec']['widths']) - 1 if s_['kind'] == 'sample' else s_['width'] - 1 for s_ in case['sets']]
+                         + [s_['col'] for s_ in case['sets'] if s_['kind'] == 'sample'][:1])
         for sset in case['sets']:
-            if case['kind'] == 'array':
+            if sset['kind'] == 'array':
                 a = np.array(sset['values'], dtype=float)
-                ch = None
-                if sset['two_d']:
-                    a = np.column_stack([a, np.ones_like(a)])
-                    ch = 0
+                if chmode != 'flat':
+                    cols = [np.full_like(a, 7.0 + 3.0 * j) for j in range(sset['width'])]
+                    cols[common] = a
+                    a = np.column_stack(cols)
                 exp_T = max(exp_T, float(max(sset['values'])))
                 mins.append(float(min(sset['values'])))
                 data.append(a)
             else:
-                d = build(sset['spec'])
-                ch = 0
+                spec = sset['spec']
+                col = common if chmode == 'pos' else sset['col']
+                if chmode == 'name':
+                    spec = dict(spec, names=[('CH %d' % j if nm == 'Common-A' else nm) for j, nm in enumerate(spec['names'])])
+                    spec['names'][col] = 'Common-A'
+                d = build(spec)
                 if sset['to_rfi'] == 'log':
                     # a log amplifier: the converted range starts at 1, not at 0; T is still its upper limit
-                    R0 = float(sset['spec']['ranges'][0])
-                    d = FlowCal.transform.to_rfi(d, 0, amplification_type=(4.0, 1.0), resolution=R0)
-                    exp_T = max(exp_T, float(d.range(0)[1]))
-                    obs.claim('derived', abs(d.range(0)[1] - 10 ** (4.0 * (R0 - 1) / R0)) <= 1e-9 * d.range(0)[1] and d.range(0)[0] == 1.0,
+                    R0 = float(spec['ranges'][col])
+                    d = FlowCal.transform.to_rfi(d, col, amplification_type=(4.0, 1.0), resolution=R0)
+                    exp_T = max(exp_T, float(d.range(col)[1]))
+                    obs.claim('derived', abs(d.range(col)[1] - 10 ** (4.0 * (R0 - 1) / R0)) <= 1e-9 * d.range(col)[1] and d.range(col)[0] == 1.0,
                               'converted range is not [1, 10^(4(R-1)/R)]')
                 elif sset['to_rfi']:
-                    d = FlowCal.transform.to_rfi(d, 0, amplification_type=(0.0, 0.0), amplifier_gain=2.0)
-                    exp_T = max(exp_T, (float(sset['spec']['ranges'][0]) - 1) / 2.0)
+                    d = FlowCal.transform.to_rfi(d, col, amplification_type=(0.0, 0.0), amplifier_gain=2.0)
+                    exp_T = max(exp_T, (float(spec['ranges'][col]) - 1) / 2.0)
                 else:
-                    exp_T = max(exp_T, float(sset['spec']['ranges'][0]) - 1)
-                mins.append(float(np.min(np.asarray(d)[:, 0])))
-                data.append(d)
-        chans = {0 if (case['kind'] != 'array' or s.get('two_d')) else None for s in case['sets']}
-        if len(chans) > 1:
-            # mixing 1-D and 2-D arrays in one call needs a channel for the 2-D ones only; keep it simple
-            data = [a[:, 0] if a.ndim > 1 else a for a in data]
-            ch = None
-        else:
-            ch = chans.pop()
+                    exp_T = max(exp_T, float(spec['ranges'][col]) - 1)
+                mins.append(float(np.min(np.asarray(d)[:, col])))
+                data.append(d[:, col] if chmode == 'flat' else d)
+        ch = {'pos': common, 'name': 'Common-A', 'flat': None}[chmode]
+        obs.label('channel:' + chmode)
         over = case['over']
         T = over.get('T', exp_T)
         M = over.get('M', max(4.5, 4.5 / math.log10(262144) * math.log10(T)))
@@ -288,8 +302,7 @@ def check(case, obs):
         if not obs.claim('derived', not raised(t), lambda: 'construction from data failed: %r' % (t,)):
             return
         # W is computed in the data's own floating type (float32 for $DATATYPE F samples)
-        f32 = case['kind'] != 'array' and any(s_['spec']['datatype'] == 'F' and not s_['to_rfi']
-                                              for s_ in case['sets'])
+        f32 = any(s_['kind'] == 'sample' and s_['spec']['datatype'] == 'F' and not s_['to_rfi'] for s_ in case['sets'])
         wtol = 1e-5 if f32 else 1e-9
         ok = (abs(t.T - T) <= 1e-12 * abs(T) and abs(t.M - M) <= 1e-12 * abs(M) + 1e-15
               and abs(t.W - W) <= wtol * max(1.0, abs(W)))
